@@ -68,6 +68,8 @@ func wgField(call ssa.CallInstruction) string {
 func checkC16(c *Ctx) {
 	c.R.NotCover = append(c.R.NotCover, "'bounded time' as a duration", "cross-blocked publisher/subscriber pairs (the property's own carve-out)", "goroutine-leak freedom as a runtime count")
 	c.useRules(ruleL1, ruleL6, ruleP5, ruleP6, ruleP7, ruleP8, ruleP4)
+	c.useRules(ruleP8)
+	c.storeKeyNeverEmpty()
 	c.useRules(ruleP9)
 	c.tokenIdentity()
 	c.sessionDeleteOnlyAtTeardown()
